@@ -17,7 +17,8 @@
 (*                   by one); then re-arm the timer or go round again       *)
 (*   WorkerStart(w)  the worker calls Executor.Execute(id, occ)             *)
 (*   WorkerFinish(w) Execute returns (ok / error / panic - all the same)    *)
-(*   WorkerCkpt(w)   UpdateLastScheduled(id, occ); worker idle again        *)
+(*   WorkerCkpt(w)   UpdateLastScheduled(id, occ)                           *)
+(*   WorkerPark(w)   the worker is back at its channel (`for it = range ch`) *)
 (* Data layout as in the code: the btree is a set of items keyed by         *)
 (* (when,id); the uniqueness index nextTime[id] is what Schedule / Release / *)
 (* process use to find the old item; s.when, the timer and its channel.     *)
@@ -50,7 +51,7 @@ VARIABLES
     timerAt,    \* deadline of the armed timer, None = stopped / fired
     tick,       \* a value is waiting in timer.C
     pc,         \* main loop: "select" | "woken"
-    wk,         \* [Workers -> [st, it, stale]]  st: idle | recv | exec | ckpt
+    wk,         \* [Workers -> [st, it, stale]]  st: idle | recv | exec | ckpt | park
     wof,        \* the id -> worker map (fixed at Init)
     pend,       \* the API call in progress (NoOp if none)
     napi,       \* number of API calls so far
@@ -82,7 +83,8 @@ QDelete(q, id, wh) == { x \in q : ~(x.id = id /\ x.when = wh) }
 QInsert(q, it) == { x \in q : ~SameKey(x, it) } \cup {it}
 
 IdleWk == [st |-> "idle", it |-> NoItem, stale |-> FALSE]
-Busy(id) == \E w \in Workers : wk[w].st # "idle" /\ wk[w].it.id = id
+Running(w) == wk[w].st \in {"recv", "exec", "ckpt"}
+Busy(id) == \E w \in Workers : Running(w) /\ wk[w].it.id = id
 
 (* ---- the effect of handing a set D of queued items to their workers ---- *)
 (* (each worker gets at most one item of D).  Used by LoopPass with the set *)
@@ -134,7 +136,7 @@ ApiCall(op) ==
     /\ UNCHANGED <<now, queue, nextTime, swhen, timerAt, tick, pc, wk, wof, active, expNext, lastCk, ran, ckAll, bad>>
 
 (* an execution in flight belongs to the epoch that dispatched it *)
-MarkStale(id) == [w \in Workers |-> IF wk[w].st # "idle" /\ wk[w].it.id = id THEN [wk[w] EXCEPT !.stale = TRUE] ELSE wk[w]]
+MarkStale(id) == [w \in Workers |-> IF Running(w) /\ wk[w].it.id = id THEN [wk[w] EXCEPT !.stale = TRUE] ELSE wk[w]]
 
 (* Schedule, queue part: delete the item the index points at, insert the new one *)
 SchedCore(id, c, last) ==
@@ -186,13 +188,20 @@ LoopWake ==
     /\ tick' = FALSE /\ pc' = "woken"
     /\ UNCHANGED <<now, queue, nextTime, swhen, timerAt, wk, wof, pend, napi, active, expNext, lastCk, ran, ckAll, bad>>
 
-(* what iterator() hands out in one Ascend: per idle worker the least due item of its ids *)
+(* What iterator() hands out in one Ascend.  The send to a worker is non-blocking:  *)
+(* a worker that is at its channel when the pass starts takes the least due item   *)
+(* of its ids.  A worker that has just checkpointed reaches its channel at some    *)
+(* point DURING the pass (or after it): any one of its due items - whichever the   *)
+(* iterator is at when that happens - or none of them gets it.                     *)
 DueItems == { x \in queue : x.when <= now }
-PassSet == { x \in DueItems :
+FirstSet == { x \in DueItems :
                 /\ wk[wof[x.id]].st = "idle"
                 /\ \A y \in DueItems : (wof[y.id] = wof[x.id] /\ ~SameKey(x, y)) => ItemLess(x, y) }
+LateChoices == { L \in SUBSET { x \in DueItems : wk[wof[x.id]].st = "park" } :
+                    \A x, y \in L : wof[x.id] = wof[y.id] => x = y }
+PassSet == FirstSet        \* the deterministic part (used by the generator's quiescent schedule)
 
-LoopPass ==
+LoopPassWith(L) ==
     /\ pc = "woken"
     /\ IF queue = {}
        THEN /\ swhen' = None /\ pc' = "select"
@@ -201,12 +210,15 @@ LoopPass ==
        THEN \* the timer fired for an item that is gone: wait for the new minimum
             /\ swhen' = MinItem(queue).when /\ timerAt' = MinItem(queue).when /\ pc' = "select"
             /\ UNCHANGED <<queue, nextTime, wk, expNext, ran, bad>>
-       ELSE /\ DispatchEffect(PassSet)
+       ELSE /\ DispatchEffect(FirstSet \cup L)
             /\ LET m == MinItem(queue') IN
                  /\ swhen' = m.when
                  /\ IF m.when > now THEN timerAt' = m.when /\ pc' = "select"
                                     ELSE UNCHANGED timerAt /\ pc' = "woken"     \* something is still due: go round again
     /\ UNCHANGED <<now, tick, wof, pend, napi, active, lastCk, ckAll>>
+
+LoopPass == \E L \in LateChoices : LoopPassWith(L)
+LoopPassFirst == LoopPassWith({})
 
 (* a pass that changes nothing: the loop is spinning on a due item whose worker is busy *)
 Spinning == pc = "woken" /\ queue # {} /\ MinItem(queue).when <= now /\ PassSet = {} /\ swhen = MinItem(queue).when
@@ -230,8 +242,13 @@ WorkerCkpt(w) ==
          /\ ckAll' = IF TrackRan THEN [ckAll EXCEPT ![it.id] = it.next] ELSE ckAll
          /\ bad' = bad \cup (IF ~wk[w].stale /\ it.next <= lastCk[it.id] THEN {"ckpt"} ELSE {})
                        \cup (IF TrackRan /\ it.next < ckAll[it.id] THEN {"ckptback"} ELSE {})
-    /\ wk' = [wk EXCEPT ![w] = IdleWk]
+    /\ wk' = [wk EXCEPT ![w] = [IdleWk EXCEPT !.st = "park"]]
     /\ UNCHANGED <<now, queue, nextTime, swhen, timerAt, tick, pc, wof, pend, napi, active, expNext, ran>>
+
+WorkerPark(w) ==
+    /\ wk[w].st = "park"
+    /\ wk' = [wk EXCEPT ![w] = IdleWk]
+    /\ UNCHANGED <<now, queue, nextTime, swhen, timerAt, tick, pc, wof, pend, napi, active, expNext, lastCk, ran, ckAll, bad>>
 
 (* -------------------------------- Next ------------------------------ *)
 ApiOps == { SchedOp(id, c, last) : id \in Ids, c \in CfgSpace, last \in 0..MaxLast } \cup { RelOp(id) : id \in Ids }
@@ -243,11 +260,11 @@ Next ==
     \/ TimerFire
     \/ LoopWake
     \/ LoopPass
-    \/ \E w \in Workers : WorkerStart(w) \/ WorkerFinish(w) \/ WorkerCkpt(w)
+    \/ \E w \in Workers : WorkerStart(w) \/ WorkerFinish(w) \/ WorkerCkpt(w) \/ WorkerPark(w)
 
 Fairness ==
     /\ WF_vars(ApiDo) /\ WF_vars(TimerFire) /\ WF_vars(LoopWake) /\ WF_vars(LoopPass)
-    /\ \A w \in Workers : WF_vars(WorkerStart(w)) /\ WF_vars(WorkerFinish(w)) /\ WF_vars(WorkerCkpt(w))
+    /\ \A w \in Workers : WF_vars(WorkerStart(w)) /\ WF_vars(WorkerFinish(w)) /\ WF_vars(WorkerCkpt(w)) /\ WF_vars(WorkerPark(w))
 
 Spec == Init /\ [][Next]_vars
 FairSpec == Spec /\ Fairness
@@ -257,14 +274,14 @@ TypeOK ==
     /\ now \in 0..MaxClock
     /\ \A x \in queue : x.id \in Ids /\ x.when = x.next + x.c.o
     /\ pc \in {"select", "woken"}
-    /\ \A w \in Workers : wk[w].st \in {"idle", "recv", "exec", "ckpt"}
+    /\ \A w \in Workers : wk[w].st \in {"idle", "recv", "exec", "ckpt", "park"}
 
 (* Ref: per scheduling epoch *)
 InOrderExactlyOnce == "order" \notin bad          \* every dispatch is the occurrence right after the previous one / after `last`
 NotEarly == "early" \notin bad                    \* now >= occurrence + offset at dispatch
 NoneAfterRelease == "released" \notin bad         \* nothing is dispatched for an id that is not scheduled
 NoConcurrentSameId == "concurrent" \notin bad
-    /\ \A w1, w2 \in Workers : (w1 # w2 /\ wk[w1].st # "idle" /\ wk[w2].st # "idle") => wk[w1].it.id # wk[w2].it.id
+    /\ \A w1, w2 \in Workers : (w1 # w2 /\ Running(w1) /\ Running(w2)) => wk[w1].it.id # wk[w2].it.id
 CheckpointMonotone == "ckpt" \notin bad           \* within an epoch
 
 (* Impl: the code's bookkeeping *)
@@ -285,9 +302,9 @@ CheckpointNeverGoesBack == "ckptback" \notin bad  \* across epochs
 
 (* liveness (FairSpec) *)
 ApiReturns == (pend # NoOp) ~> (pend = NoOp)
-(* a due occurrence of the current epoch is dispatched unless the client intervenes again *)
+(* no id stays due for ever: if from some point on an id always has a due item queued and  *)
+(* the client stays away, its occurrences keep being dispatched (until it has caught up)    *)
+DueQueued(i) == \E x \in queue : x.id = i /\ x.when <= now
 EventuallyRuns ==
-    \A i \in Ids : \A o \in 0..MaxClock : \A n \in 0..MaxApi :
-        (pend = NoOp /\ napi = n /\ active[i] /\ expNext[i] = o /\ (\E x \in queue : x.id = i /\ x.when <= now))
-            ~> (expNext[i] # o \/ napi # n)
+    \A i \in Ids : <>[](DueQueued(i) /\ pend = NoOp) => []<><<expNext'[i] # expNext[i]>>_vars
 =============================================================================
